@@ -124,6 +124,7 @@ func checkC16(c *Ctx) {
 		[]string{"eventProcessMutex", "externalTrackerMutex", "noteTracker", "externalNoteTracker", "config", "outputEvents"}) {
 		return
 	}
+	ruleOwnControllerOnly(c, "R16.11")
 	la, ok := deviceRoots(c, dv)
 	if ok {
 		ruleRaces(c, la, "R16.1")
@@ -347,6 +348,10 @@ func ruleStructuredTermination(c *Ctx, dv *dev) {
 			return "?"
 		}()
 		if !usesWg {
+			if why, ok := joinedThroughDoneChannel(c, fn, g); ok {
+				c.OK("R16.2", key, c.P.Pos(g.Pos()), why)
+				continue
+			}
 			c.Bad("R16.2", key, c.P.Pos(g.Pos()), "helper goroutine is started without the WaitGroup: nothing waits for it (left-over background activity)")
 			continue
 		}
@@ -409,6 +414,112 @@ func instrOrderedBefore(a, b ssa.Instruction) bool {
 		return instrBefore(a, b) && a != b
 	}
 	return a.Block().Dominates(b.Block())
+}
+
+// joinedThroughDoneChannel: the goroutine is not counted in the WaitGroup but ProcessEvents still waits for it: it is handed
+// a channel that ProcessEvents makes, closes that channel in a deferred call registered before it can return, and
+// ProcessEvents receives from the channel on every way to its returns. So that the wait ends, every loop of the goroutine
+// is a range over a channel that ProcessEvents closes before it waits.
+func joinedThroughDoneChannel(c *Ctx, pe *ssa.Function, g *ssa.Go) (string, bool) {
+	callee := g.Call.StaticCallee()
+	if callee == nil || len(callee.Blocks) == 0 {
+		return "", false
+	}
+	args := g.Call.Args
+	params := callee.Params
+	for i, a := range args {
+		if i >= len(params) {
+			break
+		}
+		mk := a
+		if ct, ok := mk.(*ssa.ChangeType); ok {
+			mk = ct.X
+		}
+		if _, ok := mk.(*ssa.MakeChan); !ok {
+			continue
+		}
+		// the goroutine: defer close(param), dominating its returns
+		closes := false
+		for _, b := range callee.Blocks {
+			for _, in := range b.Instrs {
+				d, ok := in.(*ssa.Defer)
+				if !ok {
+					continue
+				}
+				if bi, isB := d.Call.Value.(*ssa.Builtin); isB && bi.Name() == "close" && len(d.Call.Args) == 1 && d.Call.Args[0] == ssa.Value(params[i]) {
+					all := true
+					for _, rb := range callee.Blocks {
+						if rb == callee.Recover {
+							continue
+						}
+						if _, isRet := rb.Instrs[len(rb.Instrs)-1].(*ssa.Return); isRet && !blockDominatesOrSame(b, rb) {
+							all = false
+						}
+					}
+					closes = all
+				}
+			}
+		}
+		if !closes {
+			continue
+		}
+		// ProcessEvents: a receive from the channel on every way to a return
+		var join *ssa.UnOp
+		if mk.Referrers() != nil {
+			for _, r := range *mk.Referrers() {
+				if u, ok := r.(*ssa.UnOp); ok && u.Op == token.ARROW && u.X == mk && dominatesAllReturns(u.Block(), pe) {
+					join = u
+				}
+			}
+		}
+		if join == nil {
+			continue
+		}
+		// every loop of the goroutine ranges over a channel closed by ProcessEvents before the join
+		cf := buildChanFlow(c.P)
+		loops, ok := 0, true
+		for _, b := range callee.Blocks {
+			for _, sc := range b.Succs {
+				if !sc.Dominates(b) {
+					continue
+				}
+				loops++
+				ranged := false
+				for blk := range loopBody(sc, b) {
+					for _, in := range blk.Instrs {
+						u, isU := in.(*ssa.UnOp)
+						if !isU || u.Op != token.ARROW || !u.CommaOk {
+							continue
+						}
+						for _, cl := range cf.Classes() {
+							has := false
+							for _, r := range cl.Recvs {
+								if r.Instr == ssa.Instruction(u) {
+									has = true
+								}
+							}
+							if !has {
+								continue
+							}
+							for _, k := range cl.Close {
+								if k.Fn == pe && (k.Instr.Block() == join.Block() && instrBefore(k.Instr, join) || k.Instr.Block() != join.Block() && k.Instr.Block().Dominates(join.Block())) {
+									ranged = true
+								}
+							}
+						}
+					}
+				}
+				if !ranged {
+					ok = false
+				}
+			}
+		}
+		if !ok {
+			continue
+		}
+		return fmt.Sprintf("joined through the channel made at %s: the goroutine closes it in a deferred call, ProcessEvents receives from it before every return, and the goroutine's %d loop(s) end when ProcessEvents closes the channel they range over", c.P.Pos(mk.Pos()), loops), true
+	}
+	return "", false
 }
 
 func firstIsDeferDone(fn *ssa.Function) bool {
@@ -680,6 +791,8 @@ func ruleNoCrossTalk(c *Ctx, dv *dev) {
 			} else {
 				c.OK("R16.5", key, c.P.Pos(v.Pos()), "created with make/&T{} inside NewDevice")
 			}
+		} else if pt, ok := readOnlyPkgTable(c.P, v, f); ok {
+			c.OK("R16.5", key, c.P.Pos(v.Pos()), "refers to the package-level table "+pt.g.Name()+", built by the package initialiser and never updated, deleted from or cleared afterwards (neither through the variable nor through this field): nothing in it changes")
 		} else {
 			c.Bad("R16.5", key, c.P.Pos(v.Pos()), "field is initialised from a value that is not created inside NewDevice: two devices could share it")
 		}
